@@ -49,6 +49,7 @@ NN, NONE_E, GARB, NOHDR = (-1, -1), (-2, -2), (-3, -3), (-4, -4)
 NN_STR = hashlib.md5(b'NoneNone').hexdigest()
 GARB_STR = 'verif-never-issued-etag'
 MALFORMED = ['garbage', 'Fri, 99 Foo 2017 25:61:61 GMT', '2017-07-14T02:40:01Z', 'Fri, 14 Jul', '']
+ANCIENT = ['Fri, 01 Jan 1960 00:00:00 GMT', 'Wed, 31 Dec 1969 23:59:59 GMT', 'Monday, 01-Jan-1900 00:00:00 GMT']
 
 
 # ---------------------------------------------------------------------------------------------------------
@@ -436,6 +437,8 @@ def replay_steps(world, steps, style_seed=0):
                 ims = None
             elif h['ims'] == -2:
                 ims = MALFORMED[(i + style_seed) % len(MALFORMED)]
+            elif h['ims'] == -3:
+                ims = ANCIENT[(i + style_seed) % len(ANCIENT)]
             else:
                 ims = http_date(h['ims'], i + style_seed)
             phase = rs['phase']
@@ -484,7 +487,7 @@ def _hdr_text(h):
     if tuple(h['inm']) != NOHDR:
         parts.append('INM=%s' % {NN: 'md5(NoneNone)', GARB: 'unknown'}.get(tuple(h['inm']), 'etag%s' % (tuple(h['inm']),)))
     if h['ims'] != -1:
-        parts.append('IMS=%s' % ('malformed' if h['ims'] == -2 else 'sec %d' % h['ims']))
+        parts.append('IMS=%s' % ('malformed' if h['ims'] == -2 else 'before-1970' if h['ims'] == -3 else 'sec %d' % h['ims']))
     return ' '.join(parts) or 'unconditional'
 
 
@@ -716,6 +719,8 @@ def random_history(rng, backend, path, nsteps, tiles=('t1', 't2', 't3', 't4')):
                     ims_v = max(0, base + rng.choice((-1, 0, 0, 1, 2)))
                 elif c < 0.76:
                     ims_v = -2
+                elif c < 0.79:
+                    ims_v = -3
                 elif c < 0.84 and seen:
                     inm = rng.choice(seen + [GARB_STR])
                     ims_v = max(0, last_lm.get(t, w.clock // 2) + rng.choice((-1, 0, 1)))
@@ -723,6 +728,8 @@ def random_history(rng, backend, path, nsteps, tiles=('t1', 't2', 't3', 't4')):
                     inm_id = -1 if inm == GARB_STR else ids.of(inm)
                 if ims_v == -2:
                     ims = rng.choice(MALFORMED)
+                elif ims_v == -3:
+                    ims = rng.choice(ANCIENT)
                 elif ims_v >= 0:
                     ims = http_date(ims_v, rng.randrange(3))
                 fail = rng.random() < 0.2
